@@ -1,6 +1,8 @@
 (* C09: the sequential object the concurrent cache is compared with = C07's executable model of mem_cache
    (coq/C07/Defs.v, imported read-only), packaged as one function  eff : state -> op -> state * result.
-   thread_settings: no allocation faults, not_enough_memory() = false, size_limit() = max. The clock is a constant
+   thread_settings: not_enough_memory() = false, size_limit() = max; the only allocation fault kept is the one the
+   harness can inject into the real code: std::bad_alloc while store copies the value (first try block of store, C07's
+   FDropBefore) - operation OStoreFail; the catch block then calls remove(key) and returns.  The clock is a constant
    of a run (the harness interposes time()). Definitions only. *)
 From Coq Require Import NArith ZArith List Bool.
 From CppcmsV Require Import C07.Defs.
@@ -9,6 +11,7 @@ Import ListNotations.
 Inductive cop :=
 | OFetch (k : key)
 | OStore (k : key) (v : list N) (tin : list key) (d : Z) (g : option N)
+| OStoreFail (k : key) (v : list N) (tin : list key) (d : Z) (g : option N)   (* store whose value copy throws std::bad_alloc *)
 | ORise (t : key)
 | ORemove (k : key)
 | OClear
@@ -26,6 +29,7 @@ Definition eff (now : Z) (s : state) (o : cop) : state * cret :=
       let (s', r) := fetch now k s in
       (s', match r with OHit v t d g => RHit v t d g | _ => RMiss end)
   | OStore k v tin d g => (store now k v tin d g FNone [] s, RUnit)
+  | OStoreFail k v tin d g => (store now k v tin d g FDropBefore [] s, RUnit)
   | ORise t => (rise t s, RUnit)
   | ORemove k => (remove k s, RUnit)
   | OClear => (clear s, RUnit)
@@ -37,4 +41,17 @@ Fixpoint run_seq (now : Z) (s : state) (l : list cop) : state * list cret :=
   match l with
   | [] => (s, [])
   | o :: l' => let (s1, r) := eff now s o in let (s2, rs) := run_seq now s1 l' in (s2, r :: rs)
+  end.
+
+(* the operations as operations of C07's histories (C07.Defs.op), so that C07's theorems about sequential histories
+   apply to linearizations; stats = a clock tick to the same time (no effect on the state) *)
+Definition to_op (now : Z) (o : cop) : op :=
+  match o with
+  | OFetch k => Fetch k
+  | OStore k v tin d g => Store k v tin d g FNone []
+  | OStoreFail k v tin d g => Store k v tin d g FDropBefore []
+  | ORise t => Rise t
+  | ORemove k => Remove k
+  | OClear => Clear
+  | OStats => Tick now
   end.
